@@ -9,8 +9,10 @@ class StdOutOutput(i_lib.Output):
         if self._line_pending:
             print(' ', end='')
 
-        self._line_pending = True
         print(output, end='')
+        # Text that ends its own line (a printf format with "\n" at the end)
+        # leaves nothing on the line to be separated from.
+        self._line_pending = not str(output).endswith('\n')
 
     def newline(self):
         print()
